@@ -404,6 +404,44 @@ func cmdCheck(args []string) {
 	// static back ends
 	var staticRes []map[string]any
 	for _, sname := range cfg.Static {
+		if sname == "sweep" {
+			res, probs, failed := v.sweepCheck(*verifDir, *prop, replayDir)
+			staticRes = append(staticRes, res)
+			if n, ok := res["obligations"].(int); ok {
+				total += n
+				d, _ := res["discharged"].(int)
+				discharged += d
+				byBackend["smt:z3-new(sweep)"] += d
+			}
+			for _, pr := range probs {
+				p := writeSimpleReplay(*verifDir, *prop, "sweep-"+pr.Key, pr.Msg)
+				violate("sweep", p, false)
+			}
+			for _, o := range failed {
+				if k := isKnown(o.Name); k != nil {
+					if !knownHit[k.Obligation] {
+						knownHit[k.Obligation] = true
+						fmt.Printf("KNOWN-FINDING: property=%s %s\n", *prop, k.What)
+					}
+					continue
+				}
+				// re-solve alone to obtain a model, then replay it
+				o.Status = ""
+				o.solve(vcDir, timeout, false)
+				rr := ReplayResult{Outcome: "no model"}
+				if o.Status == "proved" {
+					// the batch run timed out but the obligation still holds
+					discharged++
+					continue
+				}
+				if len(o.Model) > 0 {
+					rr = v.replaySafety(o, replayDir)
+				}
+				p := writeObligationReplay(replayDir, o, rr)
+				violate(o.Name, p, rr.Confirmed)
+			}
+			continue
+		}
 		res, probs := v.runStatic(sname)
 		staticRes = append(staticRes, res)
 		if n, ok := res["obligations"].(int); ok {
